@@ -93,6 +93,9 @@ CORPUS = [
     '<dtml-if x>\na\n<dtml-elif y>\nb\n<dtml-elif "z">\nc\n<dtml-else>\nd\n'
     '</dtml-if x>',
     '<dtml-if expr="x">a</dtml-if>',
+    '<dtml-if x>\na\n<dtml-elif y>\nb\n<dtml-else x>\nc\n</dtml-if>',
+    '<dtml-if x>a<dtml-elif y>b<dtml-elif z>c<dtml-else x>d</dtml-if x>',
+    '<dtml-if y>q<dtml-else x>b</dtml-else>r</dtml-if>',
     '<dtml-unless x>\na\n</dtml-unless>',
     '<dtml-unless "x">a</dtml-unless>',
     '<dtml-in seq>\n<dtml-var sequence-item>\n</dtml-in>',
@@ -299,6 +302,61 @@ def gram2_sources(block, args, name):
              % (block, a, name, block))]
 
 
+# attribute table (clause iv, "attributes the tag does not accept"): every
+# attribute of any tag offered to every tag, in both orders of compilation
+# (the tags that accept it first / last), so that acceptance cannot depend
+# on what was compiled before
+MODIFIERS = ['lower', 'upper', 'capitalize', 'spacify', 'thousands_commas',
+             'html_quote', 'url_quote', 'url_quote_plus', 'url_unquote',
+             'url_unquote_plus', 'sql_quote', 'newline_to_br']
+TAG_ATTRS = {
+    'var': set(['fmt', 'null', 'missing', 'size', 'etc', 'url'] + MODIFIERS),
+    'call': set(), 'return': set(), 'if': set(), 'unless': set(),
+    'in': {'start', 'end', 'size', 'orphan', 'overlap', 'mapping',
+           'no_push_item', 'skip_unauthorized', 'previous', 'next', 'sort',
+           'reverse', 'sort_expr', 'reverse_expr', 'prefix'},
+    'with': {'mapping', 'only'},
+    'raise': set(),
+}
+BLOCK_TAGS = ('if', 'unless', 'in', 'with', 'raise')
+ATTR_TEXT = {'fmt': 'fmt=s', 'null': 'null="n"', 'missing': 'missing="m"',
+             'size': 'size=5', 'etc': 'etc="e"', 'start': 'start=1',
+             'end': 'end=9', 'orphan': 'size=5 orphan=1',
+             'overlap': 'size=5 overlap=1', 'previous': 'size=5 previous',
+             'next': 'size=5 next', 'sort': 'sort=k',
+             'sort_expr': 'sort_expr="k"', 'reverse_expr': 'reverse_expr="r"',
+             'prefix': 'prefix=p'}
+
+
+def gram3_attrs():
+    seen = []
+    for t in ('var', 'in', 'with'):
+        for a in sorted(TAG_ATTRS[t]):
+            if a not in seen:
+                seen.append(a)
+    return seen
+
+
+def gram3_source(tag, attr, syntax):
+    args = 'x ' + ATTR_TEXT.get(attr, attr)
+    names = [w.split('=')[0] for w in args.split()[1:]]
+    valid = all(n in TAG_ATTRS[tag] for n in names)
+    if syntax == 'dtml':
+        src = '<dtml-%s %s>' % (tag, args)
+        if tag in BLOCK_TAGS:
+            src += 'a</dtml-%s>' % tag
+        return 'HTML', src, valid
+    if syntax == 'ssi':
+        src = '<!--#%s %s-->' % (tag, args)
+        if tag in BLOCK_TAGS:
+            src += 'a<!--#/%s-->' % tag
+        return 'HTML', src, valid
+    if tag in BLOCK_TAGS:
+        return 'String', '%%(%s %s)[a%%(%s)]' % (tag, args, tag), valid
+    return 'String', '%%(%s %s)%s' % (tag, args,
+                                     's' if tag == 'var' else '!'), valid
+
+
 def cook(cls, src):
     """-> ('ok', None) | ('exc', exception)"""
     import signal
@@ -440,6 +498,8 @@ def cases(tier):
     yield {'fam': 'gram'}
     for bi in range(len(GRAM2_BLOCKS)):
         yield {'fam': 'gram2', 'block': bi}
+    for attr in gram3_attrs():
+        yield {'fam': 'gram3', 'attr': attr}
 
 
 def alphabet(case):
@@ -526,6 +586,29 @@ def run(case):
                 note(judge(res, cls, blk * k, 'pump-nest'), blk * k)
                 note(judge(res, cls, blk * k + end * k, 'pump-nest'), blk)
                 note(judge(res, cls, blk * k + end * (k + 1), 'pump-nest'))
+    elif fam == 'gram3':
+        attr = case['attr']
+        tags = sorted(TAG_ATTRS)
+        for syntax in ('dtml', 'ssi', 'epfs'):
+            table = [(t,) + gram3_source(t, attr, syntax) for t in tags]
+            for order in ('accepting-first', 'rejecting-first'):
+                seq = sorted(table, key=lambda r: r[3] !=
+                             (order == 'accepting-first'))
+                for t, cls, src, valid in seq:
+                    o = judge(res, cls, src, 'gram3')
+                    note(o, src)
+                    if valid != (o == 'accepted'):
+                        res.violate(
+                            'reject-invalid' if not valid
+                            else 'accept-valid',
+                            '%s:attribute-%s-on-%s' % (
+                                'accepted-invalid' if not valid
+                                else 'rejected-valid', attr, t),
+                            {'source': src, 'outcome': o, 'order': order,
+                             'compiled-before': [r[2] for r in
+                                                 seq[:seq.index(
+                                                     (t, cls, src, valid))]]},
+                            {'fam': 'gram3', 'attr': attr})
     elif fam == 'gram2':
         block, args = GRAM2_BLOCKS[case['block']]
         for name in gram2_names():
